@@ -241,6 +241,14 @@ ADDED4 = {
  "C19": "Round 9: C19.d / C19.e always fold the real constructor (3 x 4 patches for the per-axis lists); statement-wise folds replace what a skipped statement binds by an `unknown` stand-in.",
 }
 POLICY = " Verdict policy, enforced mechanically since DESIGN.md 7.14: a failed obligation is a VIOLATION only with positive evidence -- stated explicitly by the rule, or by the table of value / dataflow rules in sa/evidence_rules.py; every other failed obligation is undecided (exit 2, no VIOLATION line)."
+# round 10 (DESIGN.md 7.15); appended after ADDED4
+ADDED5 = {
+ "C09": "Round 10: the matrix algebra judges only terms written in its own symbols; an exception raised by the fold on a stand-in is not 'the code raises'.",
+ "C13": "Round 10: order evidence only for chains followed back to the probe; tables scanned with next(<generator>) fold.",
+ "C14": "Round 10: a refusal is a `raise` of the code or Python's own error on concrete values, never a missing attribute of a stand-in; generators held in variables end the fold.",
+ "C17": "Round 10: operators spelled through the operator module and helpers (_combine / _compare) are followed; only recognised operator triples are judged.",
+ "C18": "Round 10: restoring a written configuration is the identity -- _init_from_config folded on what return_config returns gives back every attribute (C18.g).",
+}
 GENERIC2 = " For every property: no default-argument object is modified in place, and optional parameters (default None) of the anchored modules are compared with None, never tested by truth value."
 
 NOT_YET = {}
@@ -252,7 +260,7 @@ def main():
         pid = p["id"]
         if pid in CLAIMED:
             cat, tech, text, note = CLAIMED[pid]
-            text = text + (" " + ADDED[pid] if pid in ADDED else "") + (" " + ADDED2[pid] if pid in ADDED2 else "") + (" " + ADDED3[pid] if pid in ADDED3 else "") + (" " + ADDED4[pid] if pid in ADDED4 else "") + COMMON + GENERIC2 + POLICY
+            text = text + (" " + ADDED[pid] if pid in ADDED else "") + (" " + ADDED2[pid] if pid in ADDED2 else "") + (" " + ADDED3[pid] if pid in ADDED3 else "") + (" " + ADDED4[pid] if pid in ADDED4 else "") + (" " + ADDED5[pid] if pid in ADDED5 else "") + COMMON + GENERIC2 + POLICY
             checks.append({
                 "property_id": pid,
                 "quick_cmd": f"./check {pid} --tier quick",
